@@ -1,7 +1,11 @@
 From Coq Require Import ZArith List Bool Lia ZifyBool.
 From HV Require Import Prelude.Py Prelude.State Bridge.BridgeConsts.
 From HV Require Gen.GData Gen.GInt Gen.GTable Gen.GHuff Model.Data Model.Int Model.Table Model.HuffEnc Model.HuffDec.
+From HV Require Import Bridge.BridgeInt.
 Open Scope Z_scope.
+(** structural cascade first (the regenerated text is the frozen model's up to renamings, reordered lets,
+    respelt tests ...); otherwise the semantic bridge of Bridge/BridgeInt.v: the regenerated function
+    satisfies the complete characterisation of the model's (refusals, and [int_enc] otherwise). *)
 Lemma b_encode_integer : forall n p, GInt.encode_integer n p = Int.encode_integer n p.
-Proof. bridge. Qed.
+Proof. first [ solve [bridge] | enc_int_bridge ]. Qed.
 Print Assumptions b_encode_integer.
